@@ -19,10 +19,20 @@ fn matcher_for(env: &TokEnv, schema: &str) -> Result<Matcher, String> {
     Ok(m)
 }
 
+/// set when a literal was refused because of a resource limit (lexer / parser too complex):
+/// such a refusal says nothing about the bounds
+static RESOURCE: std::sync::atomic::AtomicBool = std::sync::atomic::AtomicBool::new(false);
+fn resource_hit() -> bool {
+    RESOURCE.swap(false, std::sync::atomic::Ordering::SeqCst)
+}
+
 fn accepts(m: &Matcher, lit: &str) -> bool {
     let mut c = m.deep_clone();
     for &b in lit.as_bytes() {
         if c.is_stopped() || c.consume_token(b as u32).is_err() {
+            if is_resource_limit(&c) {
+                RESOURCE.store(true, std::sync::atomic::Ordering::SeqCst);
+            }
             return false;
         }
     }
@@ -257,6 +267,179 @@ fn float_case(out: &mut Out, env: &TokEnv, lo: Option<(Dec, bool)>, hi: Option<(
     out.count("float_ranges", 1);
 }
 
+/// allOf of two multipleOf: the combined step is the exact lcm or the schema is rejected
+/// (model: decimal_lcm with the variant read from numeric.rs)
+pub fn lcm_case(out: &mut Out, env: &TokEnv, a: u64, b: u64) {
+    let schema = format!("{{\"type\":\"integer\",\"allOf\":[{{\"multipleOf\":{a}}},{{\"multipleOf\":{b}}}]}}");
+    fn gcd(a: u128, b: u128) -> u128 {
+        if b == 0 { a } else { gcd(b, a % b) }
+    }
+    let l = (a as u128) * (b as u128) / gcd(a as u128, b as u128).max(1);
+    let wrapped = ((a as u128 * b as u128) % (1u128 << 32)) / gcd(a as u128, b as u128).max(1);
+    let mut lits: Vec<u128> = vec![0, a as u128, b as u128, l, 2 * l, l + a as u128, wrapped, 2 * wrapped, 1];
+    lits.retain(|&z| z < (1u128 << 62));
+    lits.sort();
+    lits.dedup();
+    let input = tagged("lcm", vec![int(a), int(b), Sx::L(lits.iter().map(|z| int(*z)).collect())]);
+    match matcher_for(env, &schema) {
+        Err(e) => {
+            if e.contains("panic") {
+                out.violation("internal panic while combining multipleOf", format!("{schema}: {e}"));
+            }
+            if e.contains("fuel") {
+                out.count("lcm_resource_limited", 1);
+                return;
+            }
+            out.count("lcm_rejected", 1);
+            out.case(input, tagged("err", vec![]), true);
+        }
+        Ok(m) => {
+            let mut res = vec![];
+            let mut viol: Vec<String> = vec![];
+            for &z in &lits {
+                let got = accepts(&m, &z.to_string());
+                let want = if l == 0 { z == 0 } else { z % l == 0 };
+                if got != want {
+                    viol.push(format!("allOf multipleOf {a} and {b}: literal {z} accepted = {got}, is a common multiple = {want}"));
+                }
+                res.push(int(got as usize));
+            }
+            if resource_hit() {
+                out.count("lcm_resource_limited", 1);
+                return;
+            }
+            for v in viol {
+                out.violation(&v, schema.clone());
+            }
+            out.count("lcm_compiled", 1);
+            out.case(input, tagged("ok", res), true);
+        }
+    }
+}
+
+/// a single integer multipleOf, small and close to the u32 limits (model: the u32 remainder
+/// arithmetic of derivre behind the compile-time guard)
+pub fn multof_case(out: &mut Out, env: &TokEnv, m: u64) {
+    let schema = format!("{{\"type\":\"integer\",\"multipleOf\":{m}}}");
+    let mut lits: Vec<u128> = vec![0, 1, m as u128, 2 * m as u128, 3 * m as u128, m as u128 + 1, (m as u128).saturating_sub(1), 10 * m as u128, 7 * m as u128 + 3];
+    lits.sort();
+    lits.dedup();
+    let input = tagged("multof", vec![int(m), Sx::L(lits.iter().map(|z| int(*z)).collect())]);
+    match matcher_for(env, &schema) {
+        Err(e) => {
+            if e.contains("panic") {
+                out.violation("internal panic compiling multipleOf", format!("{schema}: {e}"));
+            }
+            if e.contains("fuel") {
+                out.count("multof_resource_limited", 1);
+                return;
+            }
+            out.count("multof_rejected", 1);
+            out.case(input, tagged("err", vec![]), true);
+        }
+        Ok(mm) => {
+            let mut res = vec![];
+            let mut viol = vec![];
+            for &z in &lits {
+                let got = accepts(&mm, &z.to_string());
+                let want = m != 0 && z % (m as u128) == 0;
+                if got != want {
+                    viol.push(format!("multipleOf {m}: literal {z} accepted = {got}, is a multiple = {want}"));
+                }
+                res.push(int(got as usize));
+            }
+            if resource_hit() {
+                out.count("multof_resource_limited", 1);
+                return;
+            }
+            for v in viol {
+                out.violation(&v, schema.clone());
+            }
+            out.count("multof_compiled", 1);
+            out.case(input, tagged("ok", res), true);
+        }
+    }
+}
+
+/// bounds combined with multipleOf: exact arithmetic decides (implementation-only)
+fn multiple_case(rng: &mut Rng, out: &mut Out, env: &TokEnv) {
+    let integer = rng.chance(1, 2);
+    // step = sm * 10^-ss
+    let (sm, ss): (i128, u32) = if integer || rng.chance(1, 2) { (rng.range(1, 13) as i128, 0) } else { (*rng.pick(&[5i128, 25, 1, 2, 125, 3, 15]), rng.range(1, 3) as u32) };
+    let lo = rng.below(60) as i128 - 30;
+    let hi = lo + rng.below(40) as i128;
+    let (xlo, xhi) = (rng.chance(1, 3), rng.chance(1, 3));
+    let mut parts = vec![format!("\"type\":\"{}\"", if integer { "integer" } else { "number" })];
+    let step = Dec { mant: sm, scale: ss };
+    parts.push(format!("\"multipleOf\":{}", step.text()));
+    let has_lo = rng.chance(4, 5);
+    let has_hi = rng.chance(4, 5);
+    if has_lo {
+        parts.push(format!("\"{}\":{}", if xlo { "exclusiveMinimum" } else { "minimum" }, lo));
+    }
+    if has_hi {
+        parts.push(format!("\"{}\":{}", if xhi { "exclusiveMaximum" } else { "maximum" }, hi));
+    }
+    let schema = format!("{{{}}}", parts.join(","));
+    let inside = |d: &Dec| -> bool {
+        use std::cmp::Ordering::*;
+        let l = Dec { mant: lo, scale: 0 };
+        let h = Dec { mant: hi, scale: 0 };
+        (!has_lo || match d.cmp(&l) { Less => false, Equal => !xlo, Greater => true })
+            && (!has_hi || match d.cmp(&h) { Greater => false, Equal => !xhi, Less => true })
+    };
+    let is_multiple = |d: &Dec| -> bool {
+        let s = d.scale.max(ss);
+        let a = d.mant * 10i128.pow(s - d.scale);
+        let b = sm * 10i128.pow(s - ss);
+        a % b == 0
+    };
+    // literals: every multiple and near-multiple in and around the interval
+    let mut lits: Vec<String> = vec![];
+    for z in (lo - 3)..=(hi + 3) {
+        lits.push(z.to_string());
+        if !integer {
+            for f in ["5", "25", "50", "0", "125", "3"] {
+                lits.push(format!("{}.{}", z, f));
+                if z == 0 {
+                    lits.push(format!("-0.{}", f));
+                }
+            }
+        }
+    }
+    let any_inside = lits.iter().any(|l| { let d = Dec::parse(l); inside(&d) && is_multiple(&d) && (!integer || d.scale == 0) });
+    match matcher_for(env, &schema) {
+        Err(e) => {
+            out.count("multiple_rejected", 1);
+            if e.contains("panic") {
+                out.violation("internal panic compiling bounds with multipleOf", format!("{schema}: {e}"));
+            } else if any_inside {
+                out.violation("bounds with multipleOf rejected although a value satisfies them", format!("{schema}: {e}"));
+            }
+        }
+        Ok(m) => {
+            out.count("multiple_compiled", 1);
+            for l in &lits {
+                if l.starts_with("-0") && Dec::parse(l).mant == 0 {
+                    continue;
+                }
+                let d = Dec::parse(l);
+                let want = inside(&d) && is_multiple(&d) && (!integer || d.scale == 0);
+                let got = accepts(&m, l);
+                if resource_hit() {
+                    out.count("multiple_resource_limited", 1);
+                    break;
+                }
+                if got != want {
+                    out.violation(&format!("literal {l}: accepted = {got}, satisfies bounds and multipleOf = {want}"), schema.clone());
+                    break;
+                }
+            }
+            out.count("multiple_literals", lits.len() as u64);
+        }
+    }
+}
+
 pub fn run(rng: &mut Rng, out: &mut Out, tier: &str) {
     let (ws, eos) = single_byte_vocab();
     let env = make_env(&ws, eos, false);
@@ -298,5 +481,43 @@ pub fn run(rng: &mut Rng, out: &mut Out, tier: &str) {
         let lo = if r.chance(1, 8) { None } else { Some((lo, r.chance(1, 2))) };
         let hi = if r.chance(1, 8) { None } else { Some((hi, r.chance(1, 2))) };
         float_case(out, &env, lo, hi);
+    }
+    // multipleOf: alone with bounds (exact-arithmetic oracle) and combined under allOf (model: lcm)
+    let n = if tier == "thorough" { 3000 } else { 300 };
+    for i in 0..n {
+        let mut r = rng.fork(0x0900_0000 + i as u64);
+        multiple_case(&mut r, out, &env);
+    }
+    lcm_cases(rng, out, &env, if tier == "thorough" { 400 } else { 60 });
+}
+
+pub fn lcm_cases(rng: &mut Rng, out: &mut Out, env: &TokEnv, n: usize) {
+    for m in [1u64, 2, 3, 7, 10, 12, 64, 100, 999, 1000, 4096, 9973, 4294901760, 429496729, 429496728, 429496730, 1000000000, 2147483648, 3000000000, 4294967295, 858993459, 500000000] {
+        multof_case(out, env, m);
+    }
+    for i in 0..n {
+        let mut r = rng.fork(0x0b00_0000 + i as u64);
+        let m = match r.below(3) {
+            0 => r.range(1, 3000) as u64,
+            1 => 429496729u64.saturating_sub(r.below(20) as u64) + r.below(40) as u64,
+            _ => (r.next() % (1u64 << 32)).max(1),
+        };
+        multof_case(out, env, m);
+    }
+    for (a, b) in [(65537u64, 65539u64), (4, 6), (65536, 65535), (65536, 65536), (4294967295, 2), (4294967295, 4294967295), (0, 7), (1, 1), (99991, 99989), (46341, 46349)] {
+        lcm_case(out, env, a, b);
+    }
+    for i in 0..n {
+        let mut r = rng.fork(0x0a00_0000 + i as u64);
+        let pick = |r: &mut Rng| -> u64 {
+            match r.below(4) {
+                0 => r.range(1, 50) as u64,
+                1 => r.range(1000, 70000) as u64,
+                2 => (1u64 << r.range(10, 32)) - r.below(3) as u64,
+                _ => r.range(60000, 70000) as u64,
+            }
+        };
+        let (a, b) = (pick(&mut r), pick(&mut r));
+        lcm_case(out, env, a, b);
     }
 }
